@@ -322,6 +322,12 @@ impl Shared {
 
     /// Returns a guard to the current snapshot of the blockchain state.
     pub fn snapshot(&self) -> Guard<Arc<Snapshot>> {
+        #[cfg(ckb_verif)]
+        if true {
+            let guard = self.snapshot_mgr.load();
+            ckb_util::verif::point("shared::after_snapshot_load");
+            return guard;
+        }
         self.snapshot_mgr.load()
     }
 
